@@ -631,3 +631,72 @@ Proof.
     + apply tcore_start_converter. apply (tcore_frame st); try reflexivity; [intros nn rr E; exact E|exact TC].
   - (* AViewClose *) apply (tcore_frame st); try reflexivity; [intros nn rr E; exact E|exact TC].
 Qed.
+
+(* ---------------------------------------------------------------- Tinv under API actions and along every history *)
+Theorem Tinv_api p a st : Tinv st -> api_action a -> api_ok st a -> Tinv (step repaired p a st).
+Proof.
+  intros TI Ha Hok. pose proof (proj1 (Tinv_split st) TI) as (TC & CV & CI).
+  apply Tinv_split. split; [apply tcore_api; assumption|split; [apply covered_api; assumption|]].
+  apply cinv_step; [repeat split| |exact CI]. destruct a; simpl; auto. destruct Ha.
+Qed.
+
+(* what a history has to respect: API arguments as api_ok says, importer responses as resp_t says *)
+Definition valid (st : state) (a : action) : Prop :=
+  match a with
+  | ABodyImport r => resp_t st r
+  | ABodyTag _ | ABodyConvert | ABodyMerge | AComplete _ => True
+  | _ => api_ok st a
+  end.
+
+Lemma job_step_or_same p a st : job_action a -> valid st a -> jstep st (step repaired p a st) \/ step repaired p a st = st.
+Proof.
+  intros Ha V. destruct a; try (destruct Ha; fail).
+  - destruct (jimp st) as [[n [r0|]]|] eqn:J.
+    + right. simpl. rewrite J. reflexivity.
+    + left. exists p, (ABodyImport r). split; [|reflexivity]. simpl. split; [exists n; exact J|exact V].
+    + right. simpl. rewrite J. reflexivity.
+  - destruct (jtag st) as [j|] eqn:J; [|right; simpl; rewrite J; reflexivity].
+    destruct (tj_res j) eqn:R; [right; simpl; rewrite J, R; reflexivity|].
+    left. exists p, (ABodyTag truth). split; [|reflexivity]. simpl. exists j. split; assumption.
+  - destruct (jconv st) as [j|] eqn:J; [|right; simpl; rewrite J; reflexivity].
+    destruct (cj_done j) eqn:R; [right; simpl; rewrite J, R; reflexivity|].
+    left. exists p, ABodyConvert. split; [|reflexivity]. simpl. exists j. split; assumption.
+  - destruct (jmerge st) as [j|] eqn:J; [|right; simpl; rewrite J; reflexivity].
+    destruct (mj_res j) eqn:R; [right; simpl; rewrite J, R; reflexivity|].
+    left. exists p, ABodyMerge. split; [|reflexivity]. simpl. exists j. split; assumption.
+  - destruct (classic_fires k st) as [F|NF].
+    + left. exists p, (AComplete k). split; [exact F|reflexivity].
+    + right. apply complete_nofire. exact NF.
+Qed.
+
+Theorem Tinv_step p a st : Tinv st -> valid st a -> Tinv (step repaired p a st).
+Proof.
+  intros TI V. destruct a;
+    try (apply Tinv_api; [exact TI|exact I|exact V]);
+    (match goal with |- Tinv (step repaired p ?a st) => destruct (job_step_or_same p a st I V) as [JS|E] end;
+     [eapply Tinv_jstep; eassumption|rewrite E; exact TI]).
+Qed.
+
+Fixpoint valid_history (st : state) (l : list (N * action)) : Prop :=
+  match l with
+  | [] => True
+  | (p, a) :: r => valid st a /\ valid_history (step repaired p a st) r
+  end.
+
+Theorem Tinv_reachable cs l : NoDup cs -> valid_history (init cs) l -> Tinv (run repaired l (init cs)).
+Proof.
+  intros ND. assert (forall st, Tinv st -> valid_history st l -> Tinv (run repaired l st)) as G.
+  { unfold run. induction l as [|[p a] l IH]; simpl; intros st TI V; [exact TI|].
+    destruct V as (V1 & V2). apply IH; [apply Tinv_step; assumption|exact V2]. }
+  intros V. apply G; [apply Tinv_init; exact ND|exact V].
+Qed.
+
+(* every schedule of job steps from EVERY reachable state is finite and ends quiescent *)
+Theorem reachable_schedules_terminate cs l : NoDup cs -> valid_history (init cs) l ->
+  Acc (fun b a => jstep a b) (run repaired l (init cs)).
+Proof. intros ND V. apply jstep_terminates. apply Tinv_reachable; assumption. Qed.
+
+Theorem reachable_schedules_end_quiescent cs l st' : NoDup cs -> valid_history (init cs) l ->
+  jsteps (run repaired l (init cs)) st' -> (forall st'', ~ jstep st' st'') ->
+  quiescent st' /\ all_certain (tags st') = true.
+Proof. intros ND V JS ST. eapply schedules_end_quiescent; [apply Tinv_reachable; eassumption|exact JS|exact ST]. Qed.
